@@ -145,6 +145,9 @@ def run(ctx):
     if os.path.exists(cpath) and not ctx.replay_in:
         corpus = json.load(open(cpath))
         cres = pmap(_work, corpus)
+        # a pinned program that ran out of time (loaded machine) is run again, alone, with a long limit
+        cres = [semcheck.run_cfg(src, {}, timeout=120) if (r[0] == "error" and r[1][1] == "Timeout") else r
+                for src, r in zip(corpus, cres)]
         nrej = 0
         for src, r in zip(corpus, cres):
             ctx.case("corpus:" + src, nontrivial=True)
